@@ -28,6 +28,8 @@ End Sexpr.
 
 Section P.
 Variable p : prog.
+Variable par : nat -> option nat.
+Variable selw : nat -> bool.
 
 (* value of node j (< n) as a function of the current signal values only *)
 Fixpoint slvl (s : state) (n : nat) : nat -> option Z :=
@@ -222,8 +224,8 @@ Hypothesis nsf : no_self_feed p.
    the logs of the memos it tracked) shows the source's current value; untracked entries are
    the values seen at that last run *)
 Theorem read_consistent : forall ops n cm e s' v,
-  wf_ops p ops -> decl_of p n = DMemo cm e -> dead p (run_fixed p ops) n = false ->
-  read_top p n (run_fixed p ops) = (s', v) ->
+  wf_ops p ops -> decl_of p n = DMemo cm e -> dead p (run_fixed p par selw ops) n = false ->
+  read_top p n (run_fixed p par selw ops) = (s', v) ->
   cache (getn s' n) = Some v /\
   replay_body p n e (rlog (getn s' n)) = Some v /\
   ConsistentM p s' n.
@@ -233,7 +235,7 @@ Proof.
   assert (He : effb p n = false) by (unfold effb; rewrite Hd; auto).
   assert (Hn : (n < length p)%nat).
   { destruct (Nat.lt_ge_cases n (length p)); auto. unfold decl_of in Hd. rewrite nth_overflow in Hd by auto. discriminate. }
-  destruct (read_consistent_cone p wfp nsf ops n s' v Hw Hn He Hg Hr) as (I' & _ & Hmm & _).
+  destruct (read_consistent_cone p par selw wfp nsf ops n s' v Hw Hn He Hg Hr) as (I' & _ & Hmm & _).
   destruct (Hmm Hm) as (Hc & Hca & Hcons). split; auto. split; auto.
   destruct (inv_rest _ _ _ _ I' n (fun x => x)) as (_ & R2 & _).
   unfold uncached_ok in R2. rewrite Hd in R2. destruct R2 as [_ R2]. auto.
@@ -243,14 +245,14 @@ Qed.
    value read is the denotational value of the memo over the current values of the signals *)
 Theorem read_eq_spec : forall ops n s' v,
   uf_prog -> exact_prog p -> wf_ops p ops -> (n < length p)%nat -> memob p n = true ->
-  dead p (run_fixed p ops) n = false -> (forall i, dead p s' i = false) ->
-  read_top p n (run_fixed p ops) = (s', v) ->
-  spec s' n = Some v /\ (forall i, sval (getn s' i) = sval (getn (run_fixed p ops) i)).
+  dead p (run_fixed p par selw ops) n = false -> (forall i, dead p s' i = false) ->
+  read_top p n (run_fixed p par selw ops) = (s', v) ->
+  spec s' n = Some v /\ (forall i, sval (getn s' i) = sval (getn (run_fixed p par selw ops) i)).
 Proof.
   intros ops n s' v Huf Hex Hw Hn Hm Hg Hnd Hr.
   assert (He : effb p n = false).
   { unfold effb, memob in *. destruct (decl_of p n); congruence. }
-  destruct (read_consistent_cone p wfp nsf ops n s' v Hw Hn He Hg Hr) as (I' & Hsv & Hmm & _).
+  destruct (read_consistent_cone p par selw wfp nsf ops n s' v Hw Hn He Hg Hr) as (I' & Hsv & Hmm & _).
   destruct (Hmm Hm) as (Hc & Hca & _).
   destruct (clean_memo_eq_spec s' I' Huf Hex Hnd n Hm Hc) as (w & Hw' & Hs). split; auto. congruence.
 Qed.
@@ -280,7 +282,7 @@ Proof.
 Qed.
 (* the read returns 21 = 7 + 7 + 7, which is the replay of the body over the log and the spec *)
 Example p_dia_read :
-  let r := read_top p_dia 3%nat (run_fixed p_dia ops_dia) in
+  let r := read_top p_dia 3%nat (run_flat p_dia ops_dia) in
   snd r = 21 /\ spec p_dia (fst r) 3%nat = Some 21 /\
   rlog (getn (fst r) 3%nat) = [(2%nat, 1, true); (1%nat, 14, true); (0%nat, 7, true)].
 Proof. vm_compute. auto. Qed.
@@ -297,7 +299,7 @@ Qed.
    value 3 = 2 + 1 is the replay over a log whose untracked entry still shows b = 2, while the
    denotational value would be 15 *)
 Example p_dia_u_read :
-  let r := read_top p_dia_u 3%nat (run_fixed p_dia_u ops_dia) in
+  let r := read_top p_dia_u 3%nat (run_flat p_dia_u ops_dia) in
   snd r = 3 /\ spec p_dia_u (fst r) 3%nat = Some 15 /\
   rlog (getn (fst r) 3%nat) = [(2%nat, 1, true); (1%nat, 2, false); (2%nat, 1, true)] /\
   replay_body p_dia_u 3%nat (Ite (Rd 2%nat) (Add (Untr (Rd 1%nat)) (Rd 2%nat)) (Const 0))
@@ -313,10 +315,10 @@ Definition p_par : prog :=
   [DSig false 1; DMemo CPar (Rd 0%nat); DMemo CNe (Add (Rd 1%nat) (Const 0))].
 Definition ops_par : list op := [ORead 2%nat; OWrite 0%nat 3].
 Example p_par_read :
-  let r := read_top p_par 2%nat (run_fixed p_par ops_par) in
+  let r := read_top p_par 2%nat (run_flat p_par ops_par) in
   snd r = 1 /\ cache (getn (fst r) 1%nat) = Some 3 /\
   rlog (getn (fst r) 2%nat) = [(1%nat, 1, true)] /\ eqv p_par 1%nat 3 1 /\
-  snd (read_top p_par 1%nat (run_fixed p_par ops_par)) = 3.
+  snd (read_top p_par 1%nat (run_flat p_par ops_par)) = 3.
 Proof. vm_compute. auto. Qed.
 
 (* a source is disposed in the middle of a history: a, b = memo(a < 9), x, t = memo(b + x).
@@ -328,11 +330,11 @@ Definition p_drop : prog :=
 Definition ops_drop1 : list op := [ORead 3%nat; ODropSrc 2%nat; OWrite 0%nat 3].
 Definition ops_drop2 : list op := ops_drop1 ++ [ORead 3%nat; OWrite 0%nat 20].
 Example p_drop_read :
-  let r1 := read_top p_drop 3%nat (run_fixed p_drop ops_drop1) in
-  let r2 := read_top p_drop 3%nat (run_fixed p_drop ops_drop2) in
+  let r1 := read_top p_drop 3%nat (run_flat p_drop ops_drop1) in
+  let r2 := read_top p_drop 3%nat (run_flat p_drop ops_drop2) in
   snd r1 = 11 /\ nocause (fst r1) = 0%nat /\ dead p_drop (fst r1) 2%nat = true /\
   rlog (getn (fst r1) 3%nat) = [(1%nat, 1, true); (2%nat, 10, true)] /\
   snd r2 = 0 /\ nocause (fst r2) = 0%nat /\
   rlog (getn (fst r2) 3%nat) = [(1%nat, 0, true); (2%nat, 0, true)] /\
-  dead p_drop (run_fixed p_drop ops_drop2) 3%nat = false.
+  dead p_drop (run_flat p_drop ops_drop2) 3%nat = false.
 Proof. vm_compute. auto 10. Qed.
